@@ -662,7 +662,10 @@ func Run(r *fw.Run) {
 
 	// tree form
 	scratch := r.Scratch()
-	treePool := []string{"cmd/vendor/vendor.go", "cmd/vendor/p/x.go", "Z/vendor/v.go", "a", "A", "a/b", "go.mod", "GO.MOD", "sub/go.mod", "sub/GO.MOD", "sub/x.go", "sub/deep/y.go", "sub/deep/go.mod", "vendor/modules.txt", "vendor/x.go", "vendor/p/x.go", "pkg/vendor/vendor.go", "pkg/vendor/p/x.go", "LICENSE", ".hg_archival.txt", ".git", "sub/.hg", ".gitignore", "con", "é", "K", "k", "\u212a", "a b", "a:b", "x.", "sub/go.mod/n.txt", "go.mod/n.txt", "sub/vendor/go.mod/n.txt"}
+	treePool := []string{"cmd/vendor/vendor.go", "cmd/vendor/p/x.go", "Z/vendor/v.go", "a", "A", "a/b", "go.mod", "GO.MOD", "sub/go.mod", "sub/GO.MOD", "sub/x.go", "sub/deep/y.go", "sub/deep/go.mod", "vendor/modules.txt", "vendor/x.go", "vendor/p/x.go", "pkg/vendor/vendor.go", "pkg/vendor/p/x.go", "LICENSE", ".hg_archival.txt", ".git", "sub/.hg", ".gitignore", "con", "é", "K", "k", "\u212a", "a b", "a:b", "x.", "sub/go.mod/n.txt", "go.mod/n.txt", "sub/vendor/go.mod/n.txt",
+		// directories whose names are other spellings of the version-control directories (the exact names are
+		// outside the directory/list equality the property states), at the root and below
+		".GIT/notes.txt", "docs/.Hg/readme.md", "sub/.Bzr/y", ".svn.d/x"}
 	var trees [][]string
 	for i := range treePool {
 		trees = append(trees, []string{treePool[i]})
